@@ -28,6 +28,7 @@ func checkC17(c *Ctx) {
 	c.Rule("C17/R6", "quartile interpolation (R8): with k the integer part of 1/3 + p(N+1/3), Percentile returns x[0] for k <= 0, x[N-1] for k >= N and x[k-1] + frac (x[k] - x[k-1]) otherwise — evaluated for N = 5 and every k from -1 to 6 by answering the clamp conditions from (k, N)")
 	c.Rule("C17/R9", "retained values stay in input order (same rule as C12/R8): the quartile computation sorts a copy, never the measurements it was handed")
 	c.Rule("C17/R8", "the delta tests see the retained values only: nothing on the way from TTest/UTest (including methods of adapter types they hand to the statistics package) reads Metrics.Values")
+	c.Rule("C17/R16", "a remembered group is the right group: every one-slot cache in benchstat is reused only when every input of the cached computation takes part in the hit test")
 	c.Rule("C17/R15", "one-sided rows are omitted by asking the collection: in Collection.Tables every nil test of a *Metrics tests a lookup in Collection.Metrics")
 	c.Rule("C17/R14", "the geomean row stays last: in Collection.Tables a table is put into the requested order before its geomean row is appended")
 	c.Rule("C17/R13", "the p-value behind DeltaTest=UTest is the documented one: exact exactly when both sizes are within the limit that applies, ties flagged (same rule as C11/R4)")
@@ -50,6 +51,7 @@ func checkC17(c *Ctx) {
 	c17ConfigRegistered(c, p)
 	c17SortBeforeGeomean(c, p)
 	c17OneSidedByLookup(c, p)
+	slotMemoRule(c, p, "C17/R16", true, "benchstat")
 	if u := p.Fn("internal/stats", "MannWhitneyUTest"); u != nil {
 		c.Under("C11/R4", "C17/R13", func() { c11Ties(c, p, u) })
 	} else {
